@@ -306,6 +306,19 @@ theorem callsN_ieq : (i j : Items) → ieq i j = true → callsN (evsI i) = call
       rw [callsN_veq k k' h.1.1, callsN_veq v v' h.1.2, callsN_ieq r r' h.2]
 end
 
+/-- Once `NumericValue::hash` writes `-0.0` as `0.0` (C15-N1 repaired) the calls of an event are its normal form. -/
+theorem evCalls_eq_evCallsN (h : Generated.ReconEq.floatHashZeroNormalised = true) (e : Event) :
+    evCalls e = evCallsN e := by
+  cases e with
+  | num n => cases n <;> simp [evCalls, evCallsN, numCalls, hashedFloat, h]
+  | _ => rfl
+
 theorem hnorm_veq (v w : Value) (h : veq v w = true) : hnorm v = hnorm w := callsN_veq v w h
+
+theorem hash_canonical (hf : Generated.ReconEq.floatHashZeroNormalised = true) (v w : Value) (h : veq v w = true) :
+    (evsV v).flatMap evCalls = hnorm v ∧ (evsV v).flatMap evCalls = (evsV w).flatMap evCalls := by
+  have e : evCalls = evCallsN := funext (evCalls_eq_evCallsN hf)
+  rw [e]
+  exact ⟨rfl, hnorm_veq v w h⟩
 
 end SwimVerif.ReconEq
